@@ -257,7 +257,6 @@ def run(ctx):
     from checks import c06
     LEAVES = ['leaf_compact_u32', 'leaf_symbol', 'leaf_array', 'leaf_bitsequence', 'leaf_primitive', 'leaf_sequence_compact', 'leaf_option_symbol', 'leaf_u32_u8']
     kfailed = c06.run_kani(ctx, LEAVES, 600, 'real codec leaf decoder on arbitrary bytes: no panic, canonical, == model twin')
-    if kfailed: raise CheckInconclusive('kani leaf harness failed (codec primitive behaves differently from the model or is not canonical): %s' % [(f['harness'], f.get('failed_checks')) for f in kfailed])
     ctx.samples.append({'harness': 'decode-PortableRegistry-L%d' % N_reg, 'symbolic': 'b0..b%d free bytes' % (N_reg - 1), 'oracle': 'no feasible panic edge; on Ok: encode(decoded) == consumed prefix'})
     seen = set()
     for c in cexs:
@@ -267,6 +266,21 @@ def run(ctx):
         seen.add(key)
         rep, role = replay_case(ctx, case); ctx.report_case(case, rep, role)
         if len(ctx.violations) >= 3: break
+    if kfailed and not ctx.violations:
+        # a failed leaf harness is a solver counterexample on the compiled code: it is reported when a concrete input reproduces it natively
+        # (non-canonical compact integers at every id position of the small nodes), otherwise the check is inconclusive
+        nat = ctx.get_native()
+        X = [[1, 0], [253, 0], [2, 0, 0, 0], [254, 255, 0, 0], [3, 0, 0, 0, 0], [3, 255, 255, 255, 63], [7, 0, 0, 0, 0, 0]]
+        for x in X:
+            for entry, bs in (('TypeDef', [2] + x), ('TypeDef', [3, 1, 0, 0, 0] + x), ('TypeDef', [6] + x), ('TypeDef', [7] + x + [0]), ('TypeDef', [7, 0] + x), ('TypeDef', [4, 4] + x),
+                              ('Field', [0] + x + [0, 0]), ('TypeParameter', [4, 84, 1] + x), ('PortableType', x + [0, 0, 5, 0, 0]), ('PortableRegistry', [4] + x + [0, 0, 5, 0, 0])):
+                a = nat.ask({'op': 'decode_bytes', 'entry': entry, 'bytes': bs})
+                if a.get('panic') or a.get('crashed') or (a.get('decoded') and not a.get('canonical')):
+                    ctx.report_case({'what': 'decode', 'entry': entry, 'bytes': bs, 'problem': 'not canonical (found by the Kani leaf harnesses %s on the compiled code)' % [f['harness'] for f in kfailed], 'native': a}, True, None)
+                    break
+            if len(ctx.violations) >= 2: break
+        if not ctx.violations:
+            raise CheckInconclusive('kani leaf harness failed (codec primitive behaves differently from the model or is not canonical) and no native input reproduces it: %s' % [(f['harness'], f.get('failed_checks')) for f in kfailed])
     if not ctx.violations: translator_validation(ctx, 80 if T else 40)
     return finish(ctx, 'model_checking',
                   'Bounded symbolic execution of the derived Decode MIR (and Encode MIR for the canonicity oracle) of PortableRegistry and each inner node on buffers whose every byte is a z3 variable; '
